@@ -24,7 +24,25 @@ ENTRY_POINTS = [("answers.rs", "set_default_answer_with_retry_after"), ("answers
                 ("h1.rs", "end_stream"), ("h2.rs", "end_stream"), ("h1.rs", "readable")]
 
 
-def census():
+def committed_rows():
+    """the rows of the committed census coq/C01/Census.v: [(file, fn, arms, queues)]"""
+    try:
+        t = open(os.path.join(vlib.COQ, "C01", "Census.v")).read()
+    except OSError:
+        return []
+    t = t[t.index("committed_census"):t.index("entry_points")] if "entry_points" in t else t
+    return [(f, n, a == "true", q == "true") for f, n, a, q in re.findall(r'\("([\w.]+)", "(\w+)", (true|false), (true|false)\)', t)]
+
+
+def census(notes=None):
+    """Per function of the census files: does it arm WRITABLE, does it queue output.
+    Read by meaning, against the committed census: code moved into a NEW private helper of the same file
+    counts for the functions that call it (the helper gets no row of its own), and a function of the
+    committed census that disappeared while exactly one new function of the same file has its flags is taken
+    as renamed (row kept under the committed name, reported in `notes`).  Everything else — a function that
+    starts or stops arming / queueing, a new function nobody with a row calls — shows up as a changed row."""
+    notes = [] if notes is None else notes
+    known = committed_rows()
     rows = []
     for fname in CENSUS_FILES:
         src = R.strip(open(os.path.join(MUX, fname)).read())
@@ -33,6 +51,7 @@ def census():
         if m:
             src = src[:m.start()]
         fns = [(m.start(), m.group(1)) for m in re.finditer(r"\bfn\s+(\w+)\s*[<(]", src)]
+        order, direct, bodies = [], {}, {}
         for idx, (pos, name) in enumerate(fns):
             try:
                 body, _ = R.fn_body(src, name, pos)
@@ -40,18 +59,53 @@ def census():
                 continue
             a = len(ARM_RX.findall(body))
             q = len(QUEUE_RX.findall(body))
+            if name not in direct:
+                order.append(name)
+                direct[name] = [0, 0]
+                bodies[name] = ""
+            direct[name][0] += a
+            direct[name][1] += q
+            bodies[name] += body
+        kn = {n: (a, q) for f, n, a, q in known if f == fname}
+        names = set(direct)
+        callees = {n: set(re.findall(r"\b(\w+)\s*\(", bodies[n])) & names - {n} for n in names}
+        # renamed: committed name gone, exactly one new function with a row-worthy, identical pair of flags
+        gone = [n for n in kn if n not in names]
+        fresh = [n for n in order if n not in kn and (direct[n][0] or direct[n][1])]
+        alias = {}
+        for g in gone:
+            cands = [n for n in fresh if (bool(direct[n][0]), bool(direct[n][1])) == kn[g] and n not in alias.values()]
+            if len(cands) == 1 and len([x for x in gone if kn[x] == kn[g]]) == 1:
+                alias[g] = cands[0]
+                notes.append("census: %s fn %s is no longer there; fn %s (same arms/queues flags) is taken as its new name" % (fname, g, cands[0]))
+        renamed = set(alias.values())
+        new = {n for n in names if n not in kn and n not in renamed} if kn else set()
+
+        def eff(n, seen=()):
+            a, q = direct[n]
+            for h in callees[n] & new:
+                if h not in seen:
+                    ha, hq = eff(h, seen + (n,))
+                    a, q = a + ha, q + hq
+            return a, q
+        called_by_old = set()
+        for n in names - new:
+            stack = list(callees[n] & new)
+            while stack:
+                h = stack.pop()
+                if h not in called_by_old:
+                    called_by_old.add(h)
+                    stack += list(callees[h] & new)
+        back = {v: k for k, v in alias.items()}
+        for n in order:
+            if n in new and n in called_by_old:
+                if direct[n][0] or direct[n][1]:
+                    notes.append("census: %s new helper fn %s is counted for its callers" % (fname, n))
+                continue
+            a, q = eff(n) if n not in new else direct[n]
             if a or q:
-                rows.append((fname, name, a, q))
-    # a function name can occur twice in a file (impl blocks): keep order, merge duplicates by summing
-    merged, seen = [], {}
-    for f, n, a, q in rows:
-        if (f, n) in seen:
-            i = seen[(f, n)]
-            merged[i] = (f, n, merged[i][2] + a, merged[i][3] + q)
-        else:
-            seen[(f, n)] = len(merged)
-            merged.append((f, n, a, q))
-    return merged
+                rows.append((fname, back.get(n, n), a, q))
+    return rows
 
 
 def census_coq(name, rows):
@@ -70,72 +124,136 @@ def freeze():
     vlib.write_if_changed(os.path.join(vlib.COQ, "C01", "Census.v"), text)
 
 
+def _norm(x):
+    return "".join(x.split())
+
+
 def translate():
-    fails = []
-    rows = census()
+    fails, notes = [], []
+    rows = census(notes)
+    # function order inside a file is not a fact of the census: committed order first, anything else after
+    korder = {(f, n): i for i, (f, n, _, _) in enumerate(committed_rows())}
+    rows = sorted(rows, key=lambda r: (korder.get((r[0], r[1]), len(korder)), ))
     text = ("(* GENERATED by props/c01.py:translate from /repo — do not edit. *)\n"
             "From Coq Require Import String List.\nFrom SV Require Import C01.Model.\nImport ListNotations.\nOpen Scope string_scope.\n\n"
             + census_coq("gen_census", rows))
     vlib.write_if_changed(os.path.join(vlib.COQ, "C01", "Gen.v"), text)
+    # (a private function renamed with unchanged flags, code moved into a new private helper: read as the same census,
+    #  see census(); nothing is reported)
     total = sum(r[2] for r in rows)
     if total == 0:
         fails.append("census: no arm_writable/signal_pending_write call site found (source layout changed)")
-    # the write paths the model mirrors
+
+    def soft(what, why):
+        fails.append("unreadable: %s: %s" % (what, why))
+
+    # the write paths the model mirrors: the real functions are executed by the driver on every run (ops write /
+    # bigwrite / writev / bigwritev), so a shape that is no longer recognised is left to the correspondence run
     sk = R.strip(open(os.path.join(vlib.REPO, "lib/src/socket.rs")).read())
-    w, _ = R.fn_body(sk, "tcp_socket_write")
-    for rx, what in ((r"if\s+size\s*==\s*buf\.len\(\)\s*\{\s*return\s*\(size,\s*SocketResult::Continue\)", "returns Continue once the cursor reaches the end"),
-                     (r"stream\.write\(&buf\[size\.\.\]\)", "writes the unsent suffix buf[size..]"),
-                     (r"Ok\(0\)\s*=>\s*return\s*\(size,\s*SocketResult::Continue\)", "Ok(0) returns Continue"),
-                     (r"size\s*\+=\s*sz\s*;", "advances the cursor by the written count"),
-                     (r"ErrorKind::WouldBlock\s*=>\s*return\s*\(size,\s*SocketResult::WouldBlock\)", "WouldBlock returns the count so far")):
-        if not re.search(rx, w):
-            fails.append("socket.rs tcp_socket_write no longer %s" % what)
-    v, _ = R.fn_body(sk, "tcp_socket_write_vectored")
-    for rx, what in ((r"stream\.write_vectored\(bufs\)", "is a single write_vectored"),
-                     (r"\(sz,\s*SocketResult::Continue\)", "returns (sz, Continue)"),
+    try:
+        w, _ = R.fn_body(sk, "tcp_socket_write")
+        v, _ = R.fn_body(sk, "tcp_socket_write_vectored")
+    except R.Unrecognised as ex:
+        w = v = ""
+        soft("socket.rs write paths", str(ex))
+    for rx, what in ((r"if\s+(\w+)\s*==\s*\w+\.len\(\)\s*\{\s*return\s*\(\1,\s*SocketResult::Continue\)", "returns Continue once the cursor reaches the end"),
+                     (r"\w+\.write\(&\w+\[(\w+)\.\.\]\)", "writes the unsent suffix buf[size..]"),
+                     (r"Ok\(0\)\s*=>\s*return\s*\(\w+,\s*SocketResult::Continue\)", "Ok(0) returns Continue"),
+                     (r"\b(\w+)\s*\+=\s*\w+\s*;", "advances the cursor by the written count"),
+                     (r"ErrorKind::WouldBlock\s*=>\s*return\s*\(\w+,\s*SocketResult::WouldBlock\)", "WouldBlock returns the count so far")):
+        if w and not re.search(rx, w):
+            soft("socket.rs tcp_socket_write", "no longer visibly %s (the model's loop does)" % what)
+    for rx, what in ((r"\w+\.write_vectored\(\w+\)", "is a single write_vectored"),
+                     (r"\((\w+),\s*SocketResult::Continue\)", "returns (sz, Continue)"),
                      (r"ErrorKind::WouldBlock\s*=>\s*\(0,\s*SocketResult::WouldBlock\)", "maps WouldBlock to (0, WouldBlock)")):
-        if not re.search(rx, v):
-            fails.append("socket.rs tcp_socket_write_vectored no longer %s" % what)
-    # H2 -> H1 upload: the blocks handle_data_frame pushes (mirrored by the driver's h2toh1 op)
+        if v and not re.search(rx, v):
+            soft("socket.rs tcp_socket_write_vectored", "no longer visibly %s (the model's single-shot write does)" % what)
+
+    # H2 -> H1 upload: the blocks handle_data_frame pushes (mirrored by the driver's h2toh1 op).  Local names are
+    # free; a `let` that names the chunked test or the payload length stands for its definition.
     h2 = R.strip(open(os.path.join(MUX, "h2.rs")).read())
     hd, _ = R.fn_body(h2, "handle_data_frame")
-    for rx, what in ((r"if\s+kawa\.body_size\s*==\s*kawa::BodySize::Chunked\s*&&\s*content_len\s*>\s*0\s*\{[^}]*?write!\(buf,\s*\"\"[^;]*;[^}]*?\}\s*;?\s*kawa\.push_block\(kawa::Block::ChunkHeader", "writes a hex chunk header for a non-empty DATA frame of a chunked message"),
-                     (r"kawa\.push_block\(kawa::Block::Chunk\(kawa::Chunk\s*\{\s*data:\s*kawa::Store::Slice\(slice\)", "pushes the payload as one Chunk block"),
-                     (r"if\s+kawa\.body_size\s*==\s*kawa::BodySize::Chunked\s*&&\s*content_len\s*>\s*0\s*\{\s*kawa\.push_block\(kawa::Block::Flags\(kawa::Flags\s*\{\s*end_body:\s*false,\s*end_chunk:\s*true,\s*end_header:\s*false,\s*end_stream:\s*false", "ends every non-empty chunk with end_chunk flags"),
-                     (r"let\s+is_chunked\s*=\s*kawa\.body_size\s*==\s*kawa::BodySize::Chunked\s*;\s*kawa\.push_block\(kawa::Block::Flags\(kawa::Flags\s*\{\s*end_body:\s*true,\s*end_chunk:\s*is_chunked,\s*end_header:\s*false,\s*end_stream:\s*true", "ends the message with {end_body, end_chunk = chunked, end_stream} whatever the size of the last DATA frame"),
-                     (r"if\s+content_len\s*>\s*0\s*\{", "guards the payload blocks by content_len > 0")):
-        if not re.search(rx, hd, re.S):
-            fails.append("h2.rs handle_data_frame no longer %s" % what)
+    hb = R.let_bindings(hd)
+    hd = R.expand(hd, {k: x for k, x in hb.items() if re.fullmatch(r"\w+\.body_size\s*==\s*kawa::BodySize::Chunked", x)})
+    CH = r"\(?\s*\w+\.body_size\s*==\s*kawa::BodySize::Chunked\s*\)?"
+    m = re.search(r"if\s+" + CH + r"\s*&&\s*(\w+)\s*>\s*0\s*\{", hd) or re.search(r"if\s+(\w+)\s*>\s*0\s*&&\s*" + CH + r"\s*\{", hd)
+    if not m:
+        fails.append("h2.rs handle_data_frame: the test `chunked && <payload length> > 0` was not found")
+    else:
+        L = re.escape(m.group(1))
+        G = r"if\s+(?:" + CH + r"\s*&&\s*" + L + r"\s*>\s*0|" + L + r"\s*>\s*0\s*&&\s*" + CH + r")\s*\{"
+        FL = lambda eb, ec, eh, es: (r"\w+\.push_block\(kawa::Block::Flags\(kawa::Flags\s*\{" + "".join(r"(?=[^}]*\b%s:\s*%s\s*[,}])" % kv for kv in (("end_body", eb), ("end_chunk", ec), ("end_header", eh), ("end_stream", es))))
+        for rx, what in ((G + r"[^}]*?write!\(\w+,\s*\"\"[^;]*;[^}]*?\}\s*;?\s*\w+\.push_block\(kawa::Block::ChunkHeader", "writes a hex chunk header for a non-empty DATA frame of a chunked message"),
+                         (r"\w+\.push_block\(kawa::Block::Chunk\(kawa::Chunk\s*\{\s*data:\s*kawa::Store::Slice\(\w+\)", "pushes the payload as one Chunk block"),
+                         (G + r"\s*" + FL("false", "true", "false", "false"), "ends every non-empty chunk with end_chunk flags"),
+                         (FL("true", CH, "false", "true"), "ends the message with {end_body, end_chunk = chunked, end_stream} whatever the size of the last DATA frame"),
+                         (r"if\s+" + L + r"\s*>\s*0\s*\{", "guards the payload blocks by <payload length> > 0")):
+            if not re.search(rx, hd, re.S):
+                fails.append("h2.rs handle_data_frame no longer %s" % what)
+        # the chunk-size line is the hex of the payload length, not of another quantity (strings are stripped: the
+        # format arguments are read from the unstripped source)
+        raw = open(os.path.join(MUX, "h2.rs")).read()
+        fm = re.search(r"fn\s+handle_data_frame\b", raw)
+        rawfn = raw[fm.start():fm.start() + len(hd) + 20000] if fm else ""
+        wm = re.search(r"write!\(\s*\w+\s*,\s*\"\{(\w*):x\}\"\s*(?:,\s*(\w+)\s*)?\)", rawfn)
+        if not wm or (wm.group(1) or wm.group(2)) != m.group(1):
+            fails.append("h2.rs handle_data_frame: the chunk-size line is no longer `{:x}` of the payload length %s" % m.group(1))
     # a stream attached to a backend (or any) H2 connection starts with exactly that peer's announced initial
     # window, whatever the slot's previous exchange left in it (r2 m1: `min(current, initial)` truncates the
     # next upload of a keep-alive client at what the previous one left)
     st, _ = R.fn_body(h2, "start_stream")
-    if not re.search(r"if\s+let\s+Some\(s\)\s*=\s*context\.streams\.get_mut\(stream\)\s*\{\s*\*s\.split\(&self\.position\)\.window\s*=\s*i32::try_from\(self\.peer_settings\.settings_initial_window_size\)\.unwrap_or\(i32::MAX\)\s*;\s*\}", st):
+    sb = R.let_bindings(st)
+    am = re.search(r"\*\s*(\w+)\.split\(&self\.position\)\.window\s*=(?!=)\s*([^;]+);", st)
+    want = "i32::try_from(self.peer_settings.settings_initial_window_size).unwrap_or(i32::MAX)"
+    got = _norm(R.expand(am.group(2), sb)) if am else ""
+    while got.startswith("(") and R.match_brace(got, 0, "(", ")") == len(got) - 1:
+        got = got[1:-1]
+    if not am or got != want or not re.search(r"if\s+let\s+Some\(%s\)\s*=\s*context\.streams\.get_mut\(\w+\)" % (am.group(1) if am else "x"), st):
         fails.append("h2.rs start_stream no longer RESETS the new stream's send window to this peer's SETTINGS_INITIAL_WINDOW_SIZE "
-                     "(plain assignment `*s.split(&self.position).window = i32::try_from(self.peer_settings.settings_initial_window_size).unwrap_or(i32::MAX)`)")
+                     "(plain assignment `*s.split(&self.position).window = i32::try_from(self.peer_settings.settings_initial_window_size).unwrap_or(i32::MAX)`; read: %r)" % got)
     # write path: no control frame may be serialised while `expect_write` names a partially written
     # frame (m2): every stage of flush_pending_control_frames that serialises into the zero buffer is
     # guarded by `self.expect_write.is_none()`, and a partial flush parks on H2StreamId::Zero
     fc, _ = R.fn_body(h2, "flush_pending_control_frames")
-    stages = re.findall(r"if\s+!self\.(flow_control\.pending_window_updates|pending_rst_streams|pending_[a-z_]+)\.is_empty\(\)([^{]*)\{", fc)
+    fb = R.let_bindings(fc)
+    stages = []
+    for im in re.finditer(r"\bif\b", fc):
+        ob = fc.find("{", im.end())
+        cb = R._cond_before(fc, ob) if ob >= 0 else None
+        if not cb or cb[1] != im.start():
+            continue
+        conj = [_norm(c) for c in R.split_top(R.expand(cb[0], fb), "&&")]
+        conj = [c[1:-1] if c.startswith("(") and c.endswith(")") else c for c in conj]
+        pend = [c for c in conj if re.fullmatch(r"!self\.(?:\w+\.)*pending_\w+\.is_empty\(\)", c)]
+        if pend:
+            stages.append((pend[0], conj))
     if len(stages) < 2:
         fails.append("h2.rs flush_pending_control_frames: the control-frame stages (WINDOW_UPDATE, RST_STREAM) were not recognised")
-    for name, rest in stages:
-        if not re.search(r"&&\s*self\.expect_write\.is_none\(\)", rest):
+    for name, conj in stages:
+        if not any(re.fullmatch(r"self\.expect_write\.is_none\(\)|matches!\(self\.expect_write,None\)|self\.expect_write==None", c) for c in conj):
             fails.append("h2.rs flush_pending_control_frames: the %s stage no longer requires self.expect_write.is_none() "
                          "(a control frame could be written inside a half-written frame)" % name)
-    if not re.search(r"if\s+let\s+Some\(H2StreamId::Zero\)\s*=\s*self\.expect_write\s*\{\s*if\s+self\.flush_zero_to_socket\(\)", fc):
+    if not re.search(r"if\s+let\s+Some\(H2StreamId::Zero\)\s*=\s*self\.expect_write\s*\{\s*if\s+self\.flush_zero_to_socket\(\)", fc) \
+            and not re.search(r"if\s+(?:matches!\(self\.expect_write,\s*Some\(H2StreamId::Zero\)\)|self\.expect_write\s*==\s*Some\(H2StreamId::Zero\))\s*(?:&&\s*self\.flush_zero_to_socket\(\)\s*\{|\{\s*if\s+self\.flush_zero_to_socket\(\))", fc):
         fails.append("h2.rs flush_pending_control_frames no longer finishes a parked control frame (expect_write = Zero) before anything else")
     if len(re.findall(r"if\s+self\.flush_zero_to_socket\(\)\s*\{\s*self\.expect_write\s*=\s*Some\(H2StreamId::Zero\)", fc)) < 2:
         fails.append("h2.rs flush_pending_control_frames: a partially flushed control frame is no longer parked on expect_write = Zero")
     lib = R.strip(open(os.path.join(vlib.REPO, "lib/src/lib.rs")).read())
     aw, _ = R.fn_body(lib, "arm_writable")
-    if not (re.search(r"self\.interest\.insert\(Ready::WRITABLE\)", aw) and re.search(r"self\.signal_pending_write\(\)", aw)):
+    if not (re.search(r"self\.interest\.insert\(Ready::WRITABLE\)", aw) and re.search(r"self\.signal_pending_write\(\)|self\.event\.insert\(Ready::WRITABLE\)", aw)):
         fails.append("lib.rs arm_writable no longer sets WRITABLE in interest and signals the event")
     sp, _ = R.fn_body(lib, "signal_pending_write")
     if not re.search(r"self\.event\.insert\(Ready::WRITABLE\)", sp):
         fails.append("lib.rs signal_pending_write no longer inserts WRITABLE into event")
     return fails
+
+
+TRANSLATE_FALLBACK = ("the only facts that may be reported unreadable are the shapes of socket.rs tcp_socket_write / "
+                      "tcp_socket_write_vectored: the real functions are executed by the driver on every case of the correspondence run "
+                      "(ops write / bigwrite / writev / bigwritev: the count and SocketResult they return are compared with the model's "
+                      "loop, the peer reads back exactly that many bytes and compares them with the prefix offered), so a change of the "
+                      "loop is a disagreement whatever its spelling (harmless/C01_write_unreadable_* show both directions). Every other "
+                      "fact that cannot be read, or reads differently, is a hard failure")
 
 
 RULE = ("in-process: the real SocketHandler::socket_write / socket_write_vectored of mio TcpStream over a loopback pair; "
